@@ -632,6 +632,8 @@ class Run:
         if c < 0.62 and 'batch' in F:
             return ('batch', [self.gen_op(depth + 1) for _ in range(rng.randint(1, 4))])
         if c < 0.72 and 'update' in F:
+            if rng.random() < 0.06:
+                return ('badupdate',)       # a malformed argument: fails as a whole, changes nothing
             return ('update', {n: V.pool(rng) for n in rng.sample(NAMES, rng.randint(1, 3))})
         if c < 0.79 and 'discard' in F:
             return ('discard', [self.gen_op(depth + 1) for _ in range(rng.randint(1, 3))])
@@ -746,6 +748,14 @@ class Run:
             for key in self.model:
                 if self.model[key] is before[key] and self.current(key) is not before[key]:
                     self.err('trigger-altered-value', f'{key} changed by trigger({op[1]})')
+        elif k == 'badupdate':
+            self.stats['malformed_updates'] = self.stats.get('malformed_updates', 0) + 1
+            self.log('update (malformed argument)')
+            try:
+                self.o.param.update(self.rng.choice([5, [1, 2, 3], 'ab']))
+                self.err('malformed-update-accepted', 'param.update(<not a mapping>) did not raise')
+            except (TypeError, ValueError):
+                pass
         elif k == 'badtrigger':
             # a trigger call that names something that is not a parameter fails as a whole: nothing is announced for the
             # other names, and whatever was pending before stays pending
@@ -836,7 +846,7 @@ def _prog_shape(prog):
             out.append((op[0], len(op[1])))
         elif op[0] in ('set', 'setsame', 'setvary'):
             out.append((op[0], op[1][1]))
-        elif op[0] == 'badtrigger':
+        elif op[0] in ('badtrigger', 'badupdate'):
             out.append(op[0])
         else:
             out.append(op[0])
